@@ -157,7 +157,7 @@ def run(ctx):
         name = "Gen_filt_" + which
         try:
             vtext = fth.EMIT[which](lib.SRC)
-        except fth.Untranslatable as e:
+        except Exception as e:  # noqa: BLE001  (fail-closed)
             ctx.obligations += 1
             ctx.obligation_names.append(name + " (regenerated)")
             ctx.broken.append(f"translator gen/filt_translate_html.py: the source of {which} left the translatable "
@@ -417,7 +417,7 @@ def run(ctx):
                 ctx.reject(case, "a plain argument put a markup character into a safe result", None)
             else:
                 ctx.validated()
-    matrix(ctx, jinja2)
+    fcm.guarded(ctx, "C24 matrix", matrix, ctx, jinja2)
     bg.join()
 
 
